@@ -207,6 +207,12 @@ Section Inputs.
     intros Hd Hf. unfold resolve_inputs. rewrite Hd.
     apply (fold_res_fails (resolve_one classes (ns_of_name current) names)). intros s. eauto.
   Qed.
+  (* K4: a declared name that starts with the namespace of the declaring task is taken for a full name, not for a
+     name relative to that namespace *)
+  Lemma declared_name_taken_for_full :
+    prefixed (Some (lit "n")) (lit "n::n") = lit "n::n" /\ prefixed None (lit "n::n") = lit "n::n" /\
+    prefixed (Some (lit "w")) (lit "n::n") = lit "w::n::n".
+  Proof. vm_compute. auto. Qed.
 End Inputs.
 
 (* ---------- required_tasks, dependent_tasks, is_task_dependent_on are transitive closures ---------- *)
